@@ -157,7 +157,8 @@ func CSSToken(r *rand.Rand) CSSTok {
 		// raw newline inside a string: the token ends with that newline
 		q := Pick(r, []string{"\"", "'"})
 		body := HTMLSafe(r, []string{"a", " ", "\\" + q, "é", "\\\n", "x y"}, r.Intn(5))
-		return CSSTok{"BadString", q + body + Pick(r, []string{"\n", "\f"})}
+		// (a CR that ends it is one newline of its own: an LF behind it is the next, whitespace, token)
+		return CSSTok{"BadString", q + body + Pick(r, []string{"\n", "\f", "\r"})}
 	case 10:
 		ws := func() string { return Pick(r, []string{"", "", " ", "\n", "\t ", "  "}) }
 		return CSSTok{"URL", cssURLName(r) + "(" + ws() + cssURLUnquoted(r) + ws() + ")"}
